@@ -214,6 +214,27 @@ impl C12 {
         let (g, _) = cv.wait_timeout_while(g, std::time::Duration::from_millis(ms), |st| !st.get(&tid).map_or(false, |x| x.0)).unwrap();
         g.get(&tid).map_or(false, |x| x.0)
     }
+    /// is some call parked inside the critical section (holding the write lock)?
+    fn lock_held(&self) -> bool {
+        let (m, _) = &*self.ctl;
+        m.lock().unwrap().iter().any(|(t, st)| *t < 1000 && st.0 && !st.1)
+    }
+    /// waits for `tid` to reach its parking point inside the critical section. "blocked" is only
+    /// reported while another call really holds the lock; otherwise the call is on its way and
+    /// gets all the time it needs (a loaded machine must not turn into a verdict)
+    fn wait_arrival(&self, tid: u64) -> bool {
+        {
+            // a call still parked in front of the lock (CENTER without CGO) is not on its way
+            let (m, _) = &*self.ctl;
+            if m.lock().unwrap().get(&(tid + 1000)).is_some_and(|st| st.0 && !st.1) { return false; }
+        }
+        if self.wait_updated(tid, 60) { return true; }
+        let t0 = std::time::Instant::now();
+        while !self.lock_held() && t0.elapsed().as_secs() < 10 {
+            if self.wait_updated(tid, 20) { return true; }
+        }
+        self.wait_updated(tid, 0)
+    }
     fn release(&self, tid: u64) {
         let (m, cv) = &*self.ctl;
         m.lock().unwrap().entry(tid).or_insert((false, false, false)).1 = true;
@@ -581,7 +602,7 @@ pub fn execute(ctx: &mut Ctx, lines: &[String]) -> Vec<String> {
                     h.set_new_spec(spec);
                     std::mem::forget(h); // dropping a clone would shut the writers down
                 }).unwrap());
-                if c.wait_updated(tid, 60) { "ok".into() } else { ctx.report.count("c12.blocked"); "blocked".into() }
+                if c.wait_arrival(tid) { "ok".into() } else { ctx.report.count("c12.blocked"); "blocked".into() }
                 }
             }
             // CENTER: the call is entered and parked before it asks for the lock; CGO lets it go on
@@ -608,7 +629,7 @@ pub fn execute(ctx: &mut Ctx, lines: &[String]) -> Vec<String> {
                 match st.c12.as_mut() {
                     Some(c) if c.joins.contains_key(&tid) => {
                         c.release(tid + 1000);
-                        if c.wait_updated(tid, 60) { "ok".into() } else { ctx.report.count("c12.blocked"); "blocked".into() }
+                        if c.wait_arrival(tid) { "ok".into() } else { ctx.report.count("c12.blocked"); "blocked".into() }
                     }
                     _ => "bad-op no such call".into(),
                 }
@@ -623,7 +644,7 @@ pub fn execute(ctx: &mut Ctx, lines: &[String]) -> Vec<String> {
                         // a call that was waiting for the lock now proceeds to its own parking point
                         let waiting: Vec<u64> = c.joins.keys().copied().collect();
                         for w in waiting {
-                            c.wait_updated(w, 60);
+                            c.wait_arrival(w);
                         }
                         "ok".into()
                     }
